@@ -363,6 +363,9 @@ pub struct World {
 }
 
 pub fn world(rng: &mut Rng, stakes: &[u64], own: u64, with_waits: bool, with_old_votes: bool, standstill: bool) -> World {
+    // certificates for a sibling of a DIRECTLY finalized block cannot exist with < 20 % Byzantine stake: only the
+    // parent-ready histories (C07, whose specification is about marks, not about safety) include them
+    let unsafe_siblings = with_waits;
     let n = stakes.len() as u64;
     let nslots = rng.range(4, 14);
     // fate per slot: Some(hash) = chain block, None = skipped in the chain
@@ -415,6 +418,19 @@ pub fn world(rng: &mut Rng, stakes: &[u64], own: u64, with_waits: bool, with_old
                     if rng.chance(1, 6) { let q = quorum_subset(rng, stakes, 3, 5); groups.push(vec![Op::Cert { slot: s, kind: CK::Skip, hash: 0, s1: vec![], s2: q }]); }
                 }
                 if rng.chance(5, 6) { groups.push(vec![Op::Block { b: (s, h), p: parent_of(&chain, s) }]); }
+                // a sibling of the chain block (an equivocating leader's other block): registered with the same or an
+                // older parent, sometimes notar-fallback certified (never notarized or finalized - that would
+                // contradict the ground truth of a safe history), whatever the fate of the chain block
+                if rng.chance(1, 6) {
+                    let h2 = s * 10 + 3;
+                    let par = if rng.chance(2, 3) || s < 2 { parent_of(&chain, s) } else { parent_of(&chain, s - 1) };
+                    if rng.chance(3, 4) { groups.push(vec![Op::Block { b: (s, h2), p: par }]); }
+                    if rng.chance(1, 2) && (unsafe_siblings || fin >= 5) {
+                        let q = quorum_subset(rng, stakes, 3, 5);
+                        let k = rng.range(0, q.len() as u64) as usize;
+                        groups.push(vec![Op::Cert { slot: s, kind: CK::NotarFb, hash: h2, s1: q[..k].to_vec(), s2: q[k..].to_vec() }]);
+                    }
+                }
             }
             None => {
                 let orphan = rng.chance(1, 4);
@@ -552,7 +568,7 @@ fn gen_world(seed: u64, tier: Tier, sel: u64, salt: u64, nq: usize, nt: usize, w
     finish("pool", sel, cases, descr, sigs, stats)
 }
 
-const WORLD_RULE: &str = "consistent multi-window histories (4-14 slots): a ground-truth chain fixes each slot's fate (chain block or skipped, incl. whole skipped windows); chain blocks are fast-finalized, slow-finalized (notar + final), only notarized / notar-fallback certified (sometimes additionally skip-certified) or uncertified; skipped slots get skip certificates and sometimes a competing certified block; block-parent registrations for most blocks; every certificate is delivered either as a received certificate or as the votes forming it; all groups shuffled (final before notar, children before parents, gaps, certificates for already decided slots), a third of the histories additionally in adversarial orders (all skips first then old blocks from the highest slot down; strictly descending; strictly ascending)";
+const WORLD_RULE: &str = "consistent multi-window histories (4-14 slots): a ground-truth chain fixes each slot's fate (chain block or skipped, incl. whole skipped windows); chain blocks are fast-finalized, slow-finalized (notar + final), only notarized / notar-fallback certified (sometimes additionally skip-certified) or uncertified; skipped slots get skip certificates and sometimes a competing certified block; chain slots sometimes get a sibling block (registered, sometimes notar-fallback certified); block-parent registrations for most blocks; every certificate is delivered either as a received certificate or as the votes forming it; all groups shuffled (final before notar, children before parents, gaps, certificates for already decided slots), a third of the histories additionally in adversarial orders (all skips first then old blocks from the highest slot down; strictly descending; strictly ascending)";
 
 pub fn gen_c07(seed: u64, tier: Tier) -> CaseSet {
     gen_world(seed, tier, 7, 0xC07, 500, 10000, true, false, false,
